@@ -11,6 +11,7 @@ from sim.core import EndRun, close
 from sim.models.adwin import AdwinModel
 
 PROP = "C03"
+FORKS = True      # snapshot / restore events (core.Ctx.maybe_fork)
 LEVEL = "exploration"
 RULE = (
     "seeded real-valued / 0-1 / ramp / heavy-tailed streams (50-450 samples, level and variance shifts) x delta in "
@@ -70,6 +71,7 @@ def run(case, ctx):
     prev_drift = False
     for t, x in enumerate(case["events"], 1):
         ctx.step = t - 1
+        det = ctx.maybe_fork(det)
         w_before = m.W
         ctx.call("C03:adwin:update", det.update, x)
         ctx.sim_time += 1
@@ -124,6 +126,7 @@ def run_accuracy(case, ctx):
     cuts = 0
     for t, (yt, yp) in enumerate(case["events"], 1):
         ctx.step = t - 1
+        det = ctx.maybe_fork(det)
         ctx.call("C03:adwinacc:update", det.update, yt, yp)
         twin.update(float(yt == yp))
         ctx.sim_time += 1
